@@ -94,8 +94,8 @@ def check(c):
         return
 
     # ---- 2. model on the image -----------------------------------------
-    mt = c.model(S.AREA, [sx([Sym('entries'), TODAY, k['img']]) for k in cases])
-    mf = c.model(S.AREA, [sx([Sym('entries'), FIXED, k['img']]) for k in cases])
+    mt = c.model(S.AREA, [S.mline('entries', TODAY, k['img']) for k in cases])
+    mf = c.model(S.AREA, [S.mline('entries', FIXED, k['img']) for k in cases])
     # ---- 3. implementation reload --------------------------------------
     il = c.impl(S.AREA, [sx([Sym('load'), k['img']]) for k in cases])
     # images written after the reload, read by the model (repaired reader: it reads every valid image)
@@ -105,7 +105,7 @@ def check(c):
         p = try_parse(o)
         if isinstance(p, list) and p and p[0] == b'ok':
             idx2.append(i)
-            lines2.append(sx([Sym('entries'), FIXED, p[1]]))
+            lines2.append(S.mline('entries', FIXED, p[1]))
     m2 = dict(zip(idx2, c.model(S.AREA, lines2, cross=False)))
     # ---- 4. behaviour before / after ------------------------------------
     live = c.impl(S.AREA, [sx([Sym('live'), k['names'], PROBES, k['stmts'], S.renamed(k['stmts'])]) for k in cases], timeout=40)
@@ -202,6 +202,6 @@ def replay(c, obj):
         img = o[1]
         print('save :', [x[1].decode('utf-8', 'replace')[:60] for x in o[2]], len(img), 'bytes')
         print('impl load :', c.impl(S.AREA, [sx([Sym('load'), img])])[0][:200])
-        print('model today:', c.model(S.AREA, [sx([Sym('entries'), S.cfg_today(sizes), img])], cross=False)[0][:200])
-        print('model fixed:', c.model(S.AREA, [sx([Sym('dump'), S.cfg_fixed(sizes), img])], cross=False)[0][:2000])
+        print('model today:', c.model(S.AREA, [S.mline('entries', S.cfg_today(sizes), img)], cross=False)[0][:200])
+        print('model fixed:', c.model(S.AREA, [S.mline('dump', S.cfg_fixed(sizes), img)], cross=False)[0][:2000])
     return 0
